@@ -20,8 +20,8 @@ var Spec = engine.Spec{
 }
 
 type pairDesc struct {
-	A gen.ListSpec `json:"a"`
-	B gen.ListSpec `json:"b"`
+	A gen.ListSpec  `json:"a"`
+	B gen.ListSpec  `json:"b"`
 	C *gen.ListSpec `json:"c,omitempty"`
 }
 
@@ -224,7 +224,9 @@ func nearVersions(c *engine.Ctx) {
 	for di := range devs {
 		for side := 0; side < 2; side++ {
 			di, side := di, side
-			c.Case(func() any { return map[string]any{"deviation": devs[di].Label, "kind": devs[di].Kind, "deviated-operand": []string{"first", "second"}[side]} }, func(t *engine.T) *engine.Violation {
+			c.Case(func() any {
+				return map[string]any{"deviation": devs[di].Label, "kind": devs[di].Kind, "deviated-operand": []string{"first", "second"}[side]}
+			}, func(t *engine.T) *engine.Violation {
 				mk := func() (*sbom.NodeList, *sbom.NodeList) {
 					na, nb := base(), base()
 					if side == 0 {
